@@ -152,7 +152,20 @@ struct Ctx {
 fn check_sealed(run: &Run, ctx: &Ctx, n: &Node) {
     let s = match &n.real {
         Real::Sealed(s) => s,
-        _ => return,
+        _ => {
+            // an open state: the transaction commitment its header would carry already covers the transactions applied so far
+            // (two open states that differ in a transaction must not share a commitment - the search would merge them)
+            let h = n.view().header();
+            if tx_root(&n.model) != h.transactions_hash.0 {
+                run.violation(
+                    "C07",
+                    format!("transactions-root/{}/open-state", if n.model.rules().tip_908 { "dense" } else { "sparse" }),
+                    format!("the transaction commitment of the open state differs from the externally rebuilt one after [{}]", n.path_str()),
+                    n.replay_json(None),
+                );
+            }
+            return;
+        }
     };
     let h = s.header();
     let m = &n.model;
@@ -200,6 +213,9 @@ fn check_sealed(run: &Run, ctx: &Ctx, n: &Node) {
         if up != root.0 {
             run.violation("C07", format!("root-is-not-a-function-of-content/{}", name), format!("{} root in the header differs from the root of a fresh tree holding the model's content, on [{}]", name, n.path_str()), rp.clone());
         }
+    }
+    if m.block_txs.values().any(|t| !t.sigs.is_empty() && t.sigs.iter().all(|s| s.is_empty())) {
+        run.outcome(if m.rules().tip_908 { "sealed-block-with-empty-signature-slots/dense" } else { "sealed-block-with-empty-signature-slots/sparse" });
     }
     let tr = tx_root(m);
     if tr != h.transactions_hash.0 {
